@@ -172,6 +172,44 @@ def main():
                 tm = importlib.import_module(pkg + ".types")
                 names = [n for n in dir(tm) if not n.startswith("_")]
                 res = {"ok": True, "made": made, "type_names": names}
+            elif cmd["op"] == "computed":
+                import math
+                p = protos[cmd["proto"]]
+                rcls = p[("Binary", "Reader")]
+                out = []
+                names = None
+
+                def conv(x):
+                    if isinstance(x, complex):
+                        return [x.real, x.imag]
+                    if isinstance(x, bool):
+                        return bool(x)
+                    try:
+                        import numpy as _np
+                        if isinstance(x, _np.generic):
+                            x = x.item()
+                            if isinstance(x, complex):
+                                return [x.real, x.imag]
+                    except ImportError:
+                        pass
+                    if isinstance(x, float) and not math.isfinite(x):
+                        return repr(x)
+                    return x
+                with rcls(cmd["in_path"]) as r:
+                    for item in getattr(r, "read_" + step_names(r)[0])():
+                        cls = type(item)
+                        if names is None:
+                            names = [n for n, f in vars(cls).items() if callable(f) and not n.startswith("_")]
+                        row = []
+                        for n in names:
+                            try:
+                                row.append(conv(getattr(item, n)()))
+                            except BaseException as e:
+                                row.append({"error": type(e).__name__})
+                        out.append(row)
+                with open(cmd["out_path"], "w") as f:
+                    json.dump({"names": names, "rows": out}, f)
+                res = {"ok": True}
             elif cmd["op"] == "schema":
                 p = protos[cmd["proto"]]
                 res = {"ok": True, "schema": p[("Binary", "Writer")].schema}
